@@ -157,6 +157,7 @@ func ledgerCalls(a *Analysis, balFn, supFn string) ([]*ledgerCall, string) {
 
 func runC10(cx *CheckCtx) {
 	w := cx.W
+	checkLoaders(cx, nnsPkg)
 	c := cx.contract("nns")
 	if c == nil {
 		return
@@ -286,6 +287,49 @@ func runC10(cx *CheckCtx) {
 					okI = false
 				}
 			}
+			// the new balance is stored when it is not 0 and the entry deleted when it is: exactly one
+			// of the two happens on every path
+			var bPut, bDel *Site
+			for _, s := range a.RealEffects() {
+				if s.Effect == "put" && keyFamily(s.Args[1]) == pfxBalance {
+					bPut = s
+				}
+				if s.Effect == "delete" && s.Args[1] == tb.cat(tb.constBytes(pfxBalance), acc) {
+					bDel = s
+				}
+			}
+			if bPut == nil || bDel == nil {
+				okB = false
+			} else {
+				v := a.canonAt(bPut, bPut.Args[2])
+				if !a.holdsAt(bPut.In, -a.litEqC(v, 0)) || !a.holdsAt(bDel.In, a.litEqC(a.Canon(bDel.In, v), 0)) {
+					okB = false
+				}
+				for _, ex := range a.Exits() {
+					if !a.holdsAt(ex.State, a.eLit(bPut), a.eLit(bDel)) {
+						okB = false
+					}
+				}
+				// the old balance is the stored one when there is one, 0 only when there is none
+				if v.Op == "sum" {
+					for _, x := range v.Args {
+						if x.Op != "phi" {
+							continue
+						}
+						for _, alt := range tb.Alts(x) {
+							if alt.Op == "read" || alt.Op == "toint" {
+								rd := alt
+								if rd.Op == "toint" {
+									rd = rd.Args[0]
+								}
+								if !a.holdsAt(bPut.In, a.litNil(rd), a.eqLit(x, alt)) || !a.holdsAt(bPut.In, -a.litNil(rd), a.litEqC(x, 0)) {
+									okB = false
+								}
+							}
+						}
+					}
+				}
+			}
 			cx.decide(okB, "ledger-step", fmt.Sprintf("nns.updateBalance/%+d/balance", d), "stores stored balance + diff under 0x01‖account", "updateBalance does not store (stored balance + diff) for the account", w.pos(fn.Pos()))
 			cx.decide(okI, "ledger-step", fmt.Sprintf("nns.updateBalance/%+d/index", d), "token index entry 0x02‖account‖hash(token) follows the sign of diff", "the token index entry is not added on +1 / removed on −1: tokensOf diverges from the recorded owners", w.pos(fn.Pos()))
 		}
@@ -357,6 +401,33 @@ func runC10(cx *CheckCtx) {
 					}
 				}
 			}
+			// … and at the store of the record itself: there was no record, or it had expired
+			var nilLits, ltLits []int32
+			for id := int32(1); id < int32(len(a.lt.lits)); id++ {
+				l := a.lt.lits[id]
+				if l.Kind == KNil && l.A.Op == "read" && len(l.A.Args) > 0 && l.A.Args[0] == nkey {
+					nilLits = append(nilLits, id)
+				}
+				if l.Kind == KLt && isCall(l.A, "runtime.GetTime") && l.B.Op == "field" && l.B.Name == "Expiration" {
+					if k, isRec := recordOf(tb, l.B.Args[0]); isRec && k == nkey {
+						ltLits = append(ltLits, -id)
+					}
+				}
+			}
+			if len(nilLits) == 0 || len(ltLits) == 0 || !a.holdsAt(namePut.In, append(append([]int32{}, nilLits...), ltLits...)...) {
+				okTake = false
+			}
+			// the enclosing names are alive and the TLD exists when the record is stored
+			okPar, okTLD := false, false
+			for _, f := range a.unitFacts(namePut.In) {
+				if f.kind == KB && !f.pos && a.resultSite(f.A, fq(nnsParentExpiredFn(cx))) != nil {
+					okPar = true
+				}
+				if f.kind == KNil && !f.pos && f.A.Op == "read" && len(f.A.Args) > 0 && keyFamily(f.A.Args[0]) == pfxRoot {
+					okTLD = true
+				}
+			}
+			cx.decide(okPar && okTLD, "ownership-change", "nns.Register/parents-alive", "the record is stored only with the TLD present and no enclosing name expired", "a name can be registered under an expired (or missing) parent or a missing TLD", namePut.Where(w))
 			cx.decide(okTake, "ownership-change", "nns.Register/takeover-only-expired", "an existing record is taken over only with now ≥ its expiration established", "a registered, unexpired name can be taken over", relDel.Where(w))
 			// D5 (C12): conflicting parent record is in C12
 		}
@@ -538,6 +609,90 @@ func runC10(cx *CheckCtx) {
 					}
 				}
 			}
+		}
+		// the loop: from the last label down to `first`, one level per step; an iteration is completed
+		// only with the level's record present and unexpired; true is returned only for a missing or
+		// expired level
+		{
+			pa := cx.analyze(&Query{Name: "std", Root: fn})
+			ptb := pa.tb
+			var rd *Term
+			for _, s := range pa.Sites(func(s *Site) bool { return s.Callee == "storage.Get" && keyFamily(s.Args[1]) == pfxName }) {
+				rd = s.Val
+			}
+			var ltLit int32
+			for id := int32(1); id < int32(len(pa.lt.lits)); id++ {
+				l := pa.lt.lits[id]
+				if l.Kind == KLt && l.A.contains(func(x *Term) bool { return isCall(x, "runtime.GetTime") }) && l.B.Op == "field" && l.B.Name == "Expiration" && rd != nil && l.B.Args[0].contains(func(x *Term) bool { return x == rd }) {
+					ltLit = id
+				}
+			}
+			okLoop, whyLoop := rd != nil && ltLit != 0, "the level record read or its expiry comparison is gone"
+			if okLoop {
+				whyLoop = ""
+				nHdr := 0
+				for _, h := range fn.Blocks {
+					if !isLoopHeader(h) {
+						continue
+					}
+					ifi, isIf := h.Instrs[len(h.Instrs)-1].(*ssa.If)
+					if !isIf {
+						continue
+					}
+					nHdr++
+					ct := ptb.Term(ptb.root, ifi.Cond)
+					// i >= first  ≡  first <= i
+					good := ct.Op == "bin" && len(ct.Args) == 2 && (ct.Name == "<=" && ct.Args[0] == fnParam(ptb, fn, 1) && ct.Args[1].Op == "phi")
+					if good {
+						i := ct.Args[1]
+						frs := fnParam(ptb, fn, 2)
+						init, step := false, false
+						for _, al := range ptb.Alts(i) {
+							switch {
+							case al == ptb.binop(token.SUB, ptb.mk("len", "", 0, frs), ptb.constInt(1), intType):
+								init = true
+							case al == ptb.binop(token.SUB, i, ptb.constInt(1), intType):
+								step = true
+							default:
+								good = false
+							}
+						}
+						good = good && init && step
+					}
+					if !good {
+						okLoop, whyLoop = false, "the loop does not run from the last label down to `first` ("+ct.pretty()+")"
+					}
+					for _, p := range h.Preds {
+						if !h.Dominates(p) {
+							continue
+						}
+						if st := pa.edgeState(ptb.root, p, h); st != nil && !(pa.holdsAt(st, -pa.litNil(rd)) && pa.holdsAt(st, ltLit)) {
+							okLoop, whyLoop = false, "a level is passed although its record is missing or expired"
+						}
+					}
+				}
+				if nHdr != 1 {
+					okLoop, whyLoop = false, "expected one loop over the levels"
+				}
+				for _, ex := range pa.Exits() {
+					if len(ex.Results) != 1 {
+						continue
+					}
+					r := ex.Results[0]
+					q := []int32{pa.litNil(rd), -ltLit}
+					if bv, isC := r.BoolConst(); isC {
+						if !bv {
+							continue
+						}
+					} else {
+						q = append(q, -pa.litB(r))
+					}
+					if !pa.holdsAt(ex.State, q...) {
+						okLoop, whyLoop = false, "'expired' can be answered although the level is present and unexpired"
+					}
+				}
+			}
+			cx.decide(okLoop, "getter-alive", "nns.parentExpired/levels", "every level from the last label down to `first` is read; a level is passed only when present and unexpired; 'expired' only for a missing or expired level", "parentExpired does not answer 'is some enclosing name missing or expired': "+whyLoop, w.pos(fn.Pos()))
 		}
 		cx.decide(ok, "getter-alive", "nns.parentExpired/exhaustive", "'not expired' is answered only after every level was checked", "parentExpired can answer 'alive' before every parent level was checked", w.pos(fn.Pos()))
 	}
@@ -856,6 +1011,22 @@ func runC12(cx *CheckCtx) {
 					okId = okId && zero && inc
 				}
 				pre := tb.cat(ps[:4]...)
+				// distinct values: the store is reached only after the data was compared with the data of
+				// every record of the scan and found different
+				if blk := frameBlock(put, tb.root); blk != nil {
+					var dataV ssa.Value
+					for i, p := range m.Fn.Params {
+						if paramTerm(tb, m, "data") == fnParam(tb, m.Fn, i) {
+							dataV = p
+						}
+					}
+					okDist, memIf, _ := membershipGuard(m.Fn, func(v ssa.Value) bool { return dataV != nil && v == dataV }, blk)
+					where := put.Where(w)
+					if memIf != nil {
+						where = w.pos(memIf.Cond.Pos())
+					}
+					cx.decide(okDist, "record-add", "nns.AddRecord/distinct", "the record is stored only after its data was compared with every existing record of the type and found different", "a value that is already recorded for the name and type can be added again (the duplicate test is missing, inverted or does not cover every record)", where)
+				}
 				cx.decide(okId && findSite(a, pre) != nil, "record-add", "nns.AddRecord/id", "id = number of records found by the scan of the same (token, name, type)", "the id of a new record is not the count of existing records of that (token, name, type): records overwrite each other or leave gaps", put.Where(w))
 				v := unserialize(put.Args[2])
 				cx.decide(tb.field(v, "Name") == paramTerm(tb, m, "name") && tb.field(v, "Type") == typ && tb.field(v, "Data") == paramTerm(tb, m, "data") && tb.field(v, "ID") == id, "record-add", "nns.AddRecord/value", "stores {name, type, data, id}", "the stored record is "+v.pretty(), put.Where(w))
